@@ -29,10 +29,16 @@ var c19Files = []string{
 	"k: a\nBenchmarkA 1 7 ns/op\nk:\nBenchmarkA 1 8 ns/op\nk: c\nBenchmarkA 1 9 ns/op\n",
 	// a quote and a backslash in a value; foreign lines
 	"j: q\"u\\o\nPASS\nBenchmarkD 1 1 ns/op\nok pkg 1s\n",
+	// a ladder of values of one key (for conjunctions of several range terms on that key)
+	"k: a\nBenchmarkL 1 1 ns/op\nk: b\nBenchmarkL 1 2 ns/op\nk: c\nBenchmarkL 1 3 ns/op\nk: d\nBenchmarkL 1 4 ns/op\nk: e\nBenchmarkL 1 5 ns/op\nk: f\nBenchmarkL 1 6 ns/op\nk: g\nBenchmarkL 1 7 ns/op\nk:\nBenchmarkL 1 8 ns/op\n",
 }
 
 // uploads of the state alphabet: lists of file indices
-var c19Uploads = [][]int{{0}, {1}, {2}, {0, 1}, {1, 0}, {2, 3}, {4}, {3}}
+var c19Uploads = [][]int{{0}, {1}, {2}, {0, 1}, {1, 0}, {2, 3}, {4}, {3}, {5}}
+
+// c19MainUploads is the number of uploads the history enumeration draws from;
+// the ladder upload (index 8) is only used by the one-key family.
+const c19MainUploads = 8
 
 type c19State []int // upload indices
 
@@ -281,14 +287,14 @@ func c19Replay(raw json.RawMessage) string {
 }
 
 func c19Space(c *mc.Check, maxUploads, maxTerms int) {
-	f := c.Family("upload-histories-x-queries", fmt.Sprintf("every sequence of ≤%d successful uploads from %d uploads of 1–2 files (label set/changed/deleted/re-added, consecutive results with equal labels coalescing into one record, sub-names and -N, values with blanks, quotes and backslashes, foreign lines) on a fresh sqlite database × every ordered conjunction of ≤%d terms from ≈40 (keys k, j, name, sub1, k2, gomaxprocs, by, upload, upload-part, missing × {:,<,>} × present/absent/between/empty/quoted values, incl. contradictory and redundant pairs): Query returns exactly the stored results whose labels satisfy every term, each once, line and labels intact; ListUploads reports per upload the number of matching stored records, newest first, for limits {0,1,2}; errors only for an empty equality value; a sub-lattice is repeated through the HTTP handlers (/search re-serialised by the printer and re-read by the client's reader, /uploads); non-trivial = conjunctions of ≥2 terms", maxUploads, len(c19Uploads), maxTerms), c19Replay)
+	f := c.Family("upload-histories-x-queries", fmt.Sprintf("every sequence of ≤%d successful uploads from %d uploads of 1–2 files (label set/changed/deleted/re-added, consecutive results with equal labels coalescing into one record, sub-names and -N, values with blanks, quotes and backslashes, foreign lines) on a fresh sqlite database × every ordered conjunction of ≤%d terms from ≈40 (keys k, j, name, sub1, k2, gomaxprocs, by, upload, upload-part, missing × {:,<,>} × present/absent/between/empty/quoted values, incl. contradictory and redundant pairs): Query returns exactly the stored results whose labels satisfy every term, each once, line and labels intact; ListUploads reports per upload the number of matching stored records, newest first, for limits {0,1,2}; errors only for an empty equality value; a sub-lattice is repeated through the HTTP handlers (/search re-serialised by the printer and re-read by the client's reader, /uploads); non-trivial = conjunctions of ≥2 terms", maxUploads, c19MainUploads, maxTerms), c19Replay)
 	if c.Replaying() {
 		return
 	}
 	f.Bounds["max_uploads"], f.Bounds["max_terms"] = maxUploads, maxTerms
 	var states []c19State
 	for n := 1; n <= maxUploads; n++ {
-		mc.Sequences(len(c19Uploads), n, func(m []int) { states = append(states, append(c19State{}, m...)) })
+		mc.Sequences(c19MainUploads, n, func(m []int) { states = append(states, append(c19State{}, m...)) })
 	}
 	f.Bounds["states"] = len(states)
 	done := mc.ParRange(uint64(len(states)), 1, c.TimeUp, func(w int, lo, hi uint64) {
@@ -359,6 +365,73 @@ func c19Space(c *mc.Check, maxUploads, maxTerms int) {
 }
 
 // isContradiction: several terms on one key that no value can satisfy.
+// c19OneKey: every ordered conjunction of up to maxTerms terms on ONE key. The
+// merging of several terms on a key has cases that only a third or fourth term
+// reaches (a range merged into an already merged range).
+func c19OneKey(c *mc.Check, maxTerms int) {
+	f := c.Family("one-key-conjunctions", fmt.Sprintf("stores {a ladder of 8 results with k = a…g and absent; the same after an earlier two-file upload} × EVERY ordered conjunction of ≤%d terms on the single key k from {k:v, k<v, k>v for v ∈ {b, d, f}; k>\"\"}: Query and ListUploads (limits 0,1,2; every 7th through the HTTP handlers) must return exactly what the conjunction of the terms selects from the reference store; non-trivial = ≥3 terms", maxTerms), c19Replay)
+	if c.Replaying() {
+		return
+	}
+	f.Bounds["max_terms"] = maxTerms
+	var terms []term
+	for _, v := range []string{"b", "d", "f"} {
+		for _, op := range []string{":", "<", ">"} {
+			terms = append(terms, term{"k", op, v})
+		}
+	}
+	terms = append(terms, term{"k", ">", ""})
+	states := []c19State{{8}, {3, 8}}
+	var conj [][]int
+	for n := 1; n <= maxTerms; n++ {
+		mc.Sequences(len(terms), n, func(m []int) { conj = append(conj, append([]int{}, m...)) })
+	}
+	f.Bounds["conjunctions"] = len(conj)
+	for _, st := range states {
+		done := mc.ParRange(uint64(len(conj)), 64, c.TimeUp, func(w int, lo, hi uint64) {
+			bs, m := buildState(st)
+			if m != "" {
+				c.Fail(f, "upload-failed", c19Case{State: st}, m)
+				return
+			}
+			defer bs.v.Close()
+			l := f.Local()
+			for qi := lo; qi < hi; qi++ {
+				var ts []term
+				for _, ti := range conj[qi] {
+					ts = append(ts, terms[ti])
+				}
+				limit := []int{0, 1, 2}[qi%3]
+				var msg, sig string
+				if p := mc.Catch(func() { msg, sig = c19CheckQuery(bs, ts, limit, qi%7 == 0) }); p != "" {
+					msg, sig = p, "panic"
+				}
+				l.Evals++
+				if len(ts) >= 3 {
+					l.Nontrivial++
+				}
+				if msg != "" {
+					l.Outcome("violation:" + sig)
+					if sig == "uploads-error" && isContradiction(ts) {
+						sig = "uploads-error-contradictory-terms"
+					}
+					c.Fail(f, sig, c19Case{st, ts, limit}, msg)
+				} else if isContradiction(ts) {
+					l.Outcome("ok-contradictory")
+				} else {
+					l.Outcome("ok")
+				}
+			}
+			l.Flush()
+		})
+		if done < uint64(len(conj)) {
+			f.Capped(fmt.Sprintf("time cap: %d of %d conjunctions", done, len(conj)))
+		}
+	}
+	f.Sample(c19Case{c19State{8}, []term{{"k", ">", "b"}, {"k", "<", "f"}, {"k", ">", "d"}}, 0})
+	f.Done()
+}
+
 func isContradiction(ts []term) bool {
 	byKey := map[string][]term{}
 	for _, t := range ts {
@@ -477,6 +550,7 @@ func TestVerifC19(t *testing.T) {
 	c.Assume("the upload-time label is the server's clock and is not compared")
 	if os.Getenv("VERIF_PART") == "" || os.Getenv("VERIF_PART") == "0" {
 		c19Space(c, mc.Pick(c, 2, 3), mc.Pick(c, 2, 3))
+		c19OneKey(c, mc.Pick(c, 5, 6))
 		c19Split(c, mc.Pick(c, 7, 8))
 	}
 	if code := c.Finish(); code != 0 {
